@@ -5,7 +5,7 @@ from hypothesis import strategies as st
 
 from conda_content_trust import authentication as A
 
-from vlib import gen_envelope as GE, gen_json as G, gen_metadata as GM, keys, ref_openpgp, ref_verify as RV, related
+from vlib import cfgunit, configrun, gen_envelope as GE, gen_json as G, gen_metadata as GM, keys, ref_openpgp, ref_verify as RV, related
 from vlib.ref_canon import canon
 from vlib.runner import Unit, Violation
 
@@ -215,7 +215,27 @@ def check_exhaustive(case):
     return {"nontrivial": lo < case["threshold"] <= 3, "labels": ["accepted" if observed == "accept" else "rejected"]}
 
 
+@st.composite
+def _config_cases(draw):
+    calls = []
+    for _ in range(draw(st.integers(3, 6))):
+        c = draw(GE.envelopes())
+        calls.append(["verify_signable", GE.to_envelope(c), c["authorized"], c["threshold"], c["gpg"]])
+    c = draw(_delegation_cases())
+    calls.append(["verify_delegation", c["role"], GE.to_envelope(c), _trusted_for(c, c["role"]), c["gpg"]])
+    cfg = draw(configrun.configs)
+    cfg["stdout"] = draw(st.sampled_from([None, None, "closed"]))
+    return {"calls": calls, "config": cfg}
+
+
+def check_config(case):
+    verdicts, labels, count = cfgunit.config_probe(case["calls"], "sound", case["config"])
+    return {"nontrivial": "accept" in verdicts and len(set(verdicts)) > 1, "labels": labels, "count": count}
+
+
 UNITS = [
+    Unit("config", check_config, strategy=_config_cases, quick=24, thorough=400, shards_quick=8, shrink=False,
+         doc="soundness in fresh interpreters: -O, logging level, warnings filter, stdout encoding / closed stdout, discovered environment variables"),
     Unit("signable", check_signable, strategy=GE.envelopes, quick=1200, thorough=40000,
          essential=["other_payload:leaf", "bitflip:signature", "misfiled", "wrong_shape", "malformed", "upper_sig",
                     "unauthorized", "variant_key", "junk", "valid_nonce"], essential_min=0.02,
